@@ -30,6 +30,7 @@ Section C02.
   Variable plines : list string -> node -> nat -> nat * nat.
   Variables metric_ok lname_ok lvalue_ok dur_ok : string -> bool.
   Variable int_ok : node -> bool.
+  Variable null_ok : node -> bool.
 
   Notation PR := (parse_rule plines metric_ok lname_ok lvalue_ok).
   Notation PRS := (parse_rule_strict plines metric_ok lname_ok lvalue_ok).
@@ -98,7 +99,7 @@ Section C02.
   Lemma parse_rule_strict_wf lines n : wellformed (PRS lines n).
   Proof.
     unfold parse_rule_strict.
-    destruct (negb (is_tag (n_tag n) mapTag)); [exact I|].
+    destruct (negb (is_tag (n_tag n) mapTag) || kind_mismatch n KMapping)%bool; [exact I|].
     destruct (bad_rule_key (unpack_nodes n)); [exact I|].
     destruct (PR lines 0 n) as [r e] eqn:E. destruct e; [exact I|]. exact (parse_rule_wf _ _ _ _ E).
   Qed.
@@ -134,7 +135,7 @@ Section C02.
 
   Lemma parse_group_wf thanos lines n : rules_wf (PG thanos lines n).
   Proof.
-    unfold parse_group. destruct (negb (is_tag (n_tag n) mapTag)); [intros r []|].
+    unfold parse_group. destruct (negb (is_tag (n_tag n) mapTag) || kind_mismatch n KMapping)%bool; [intros r []|].
     apply group_loop_wf. intros r [].
   Qed.
 
@@ -165,25 +166,25 @@ Section C02.
   Proof.
     induction roots as [|n r IH]; intros names acc names' acc' Ha H; cbn [groups_of_roots] in H.
     - inversion H; subst. exact Ha.
-    - destruct (negb _); [discriminate|].
+    - destruct (negb _ || _)%bool; [discriminate|].
       destruct (groups_of_entries _ _ _ _ _ _ _ _ _ _ _) as [e|[n1 a1]] eqn:E; [discriminate|].
       eapply IH; [|exact H]. eapply groups_of_entries_wf; [exact Ha|exact E].
   Qed.
 
   Lemma parse_strict_loop_wf thanos lines yerr : forall ds idx groups err,
     groups_wf groups ->
-    groups_wf (f_groups (parse_strict_loop plines metric_ok lname_ok lvalue_ok dur_ok int_ok thanos lines ds yerr idx groups err)).
+    groups_wf (f_groups (parse_strict_loop plines metric_ok lname_ok lvalue_ok dur_ok int_ok null_ok thanos lines ds yerr idx groups err)).
   Proof.
     induction ds as [|[d nl] r IH]; intros idx groups err Hg; cbn [parse_strict_loop].
     - destruct yerr; exact Hg.
-    - unfold parse_groups.
+    - destruct (strict_prepass null_ok d); [exact Hg|]. unfold parse_groups.
       destruct (groups_of_roots _ _ _ _ _ _ _ _ _ _) as [e|[n1 a1]] eqn:E; [exact Hg|].
       apply IH. apply groups_wf_app; [exact Hg|]. eapply groups_of_roots_wf; [apply groups_wf_nil|exact E].
   Qed.
 
   (** Strict mode, every forest. *)
   Theorem strict_rules_wellformed thanos lines ds yerr :
-    groups_wf (f_groups (parse_strict plines metric_ok lname_ok lvalue_ok dur_ok int_ok thanos lines ds yerr)).
+    groups_wf (f_groups (parse_strict plines metric_ok lname_ok lvalue_ok dur_ok int_ok null_ok thanos lines ds yerr)).
   Proof. apply parse_strict_loop_wf, groups_wf_nil. Qed.
 
   (** Relaxed mode, every forest. *)
